@@ -32,9 +32,19 @@ def check_T1(ctx, facts):
     ok = len(fields) == 1 and fields[0]['ty'] == 'u64'
     ctx.ob('C04.T1', 'single-u64-field', ok, '%s:%s' % (adt['span']['f'], adt['span']['l']),
            'HLCTimestamp has fields %s' % [(f['name'], f['ty']) for f in fields])
+    def impls_of(tr):
+        return [im for im in facts.impls if im['self'] == TS and im.get('trait_def') and strip_generics(im['trait_def']) == tr
+                and ('<' not in im['trait'] or im['trait'].endswith('<' + TS + '>'))]
+    hand_order = False
+    if any(len(impls_of(tr)) == 1 and not impls_of(tr)[0]['derived'] for tr in ('core::cmp::PartialOrd', 'core::cmp::Ord')):
+        # a hand-written order: decided by interpreting cmp / partial_cmp under every field-wise relation of the two operands
+        # (bits_abs.check_order); the derived-order clause is the fallback
+        import bits_abs
+        hand_order = bool(bits_abs.check_order(ctx, facts, 'C04.T1', TS))
     for tr in ('core::cmp::PartialOrd', 'core::cmp::Ord', 'core::cmp::PartialEq', 'core::cmp::Eq'):
-        ims = [im for im in facts.impls if im['self'] == TS and im.get('trait_def') and strip_generics(im['trait_def']) == tr
-               and ('<' not in im['trait'] or im['trait'].endswith('<' + TS + '>'))]
+        ims = impls_of(tr)
+        if hand_order and tr in ('core::cmp::PartialOrd', 'core::cmp::Ord'):
+            continue
         ok = len(ims) == 1 and ims[0]['derived']
         ctx.ob('C04.T1', 'derived|' + tr, ok, '',
                '%s for HLCTimestamp is %s' % (tr, 'derived (field order of the single word)' if ok else
